@@ -92,6 +92,9 @@ Universe(tier) ==
          : d \in { <<"GOOGLE", 1, FALSE>>, <<"REST", 1, FALSE>>, <<"NUMPYDOC", 1, FALSE>>, <<"NUMPYDOC", 1, TRUE>> },
            b \in B0(1..NLeaf) \cup Conds(IF tier = "quick" THEN {1, 3, 5, 6, 7, 9} ELSE 1..9) }
   \cup { [mode |-> "inf", ret |-> NoTerm, style |-> "NUMPYDOC", ndoc |-> 2, named |-> TRUE, body |-> b] : b \in B0({6, 11}) }
+  \* the same inference when the parameters are annotated and only the return annotation is missing
+  \cup { [mode |-> "infp", ret |-> NoTerm, style |-> "PLAINTEXT", ndoc |-> 0, named |-> FALSE, body |-> b]
+         : b \in B0(1..NLeaf) \cup Compounds(B0({1, 3, 5, 6}), {1, 3, 7}) \cup Conds({1, 3, 5, 6}) }
   \* no return statement at all, results known from the docstring only: they are named like any other unnamed result
   \cup { [mode |-> "inf", ret |-> NoTerm, style |-> d[1], ndoc |-> d[2], named |-> FALSE, body |-> <<>>]
          : d \in { <<"GOOGLE", 1, FALSE>>, <<"REST", 1, FALSE>>, <<"NUMPYDOC", 1, FALSE>>, <<"NUMPYDOC", 2, FALSE>>, <<"NUMPYDOC", 3, FALSE>> } }
